@@ -80,6 +80,7 @@ TSetMeas(ev) ==
 TReload(ev) ==
   /\ Observe(ev) /\ status' = status /\ memo' = EmptyMemo
   /\ Clause(ev, "reload-effect", ReloadShape(ev) /\ \E keep \in BOOLEAN : ReloadEffect(ev.raised, keep, [i \in DOMAIN ev.verts |-> ev.verts[i].pose], [n \in DOMAIN ev.edges |-> ev.edges[n].num]))
+  /\ Clause(ev, "reload-refusal", ev.raised => ~ev.expressible)          \* a graph the format can express (judged on the numbers: G2O!EdgeExpressible, registry) is not refused
   /\ Clause(ev, "reload-gradient-index", ev.raised \/ \A j \in DOMAIN ev.verts : ev.gidx[j] = GradientIndex(ev.verts, j))
   /\ Clause(ev, "reload-binding", ev.raised \/ \A n \in DOMAIN ev.edges : ev.bound[n] = Bind2(ev.edges[n], ev.verts))
   /\ Clause(ev, "reload-chi2", ev.raised \/ ev.chi2Ok)
